@@ -112,16 +112,22 @@ type GlobalDecl struct {
 	Guard string
 }
 
+type TypeInv struct {
+	Pkg, Type, Text string
+	Expr            Expr
+}
+
 type SpecDB struct {
-	funcs   map[string]*FuncSpec
-	preds   map[string]*PredSpec
-	lemmas  []*LemmaSpec
-	globals map[string]*GlobalDecl
-	ifaces  map[string]*FuncSpec
-	ftypes  map[string]*FuncSpec
-	files   []string
-	expect  map[string]int
-	source  map[string]string // file -> "repo" | "mirror"
+	typeinvs []*TypeInv
+	funcs    map[string]*FuncSpec
+	preds    map[string]*PredSpec
+	lemmas   []*LemmaSpec
+	globals  map[string]*GlobalDecl
+	ifaces   map[string]*FuncSpec
+	ftypes   map[string]*FuncSpec
+	files    []string
+	expect   map[string]int
+	source   map[string]string // file -> "repo" | "mirror"
 }
 
 func newSpecDB() *SpecDB {
@@ -177,7 +183,7 @@ func (db *SpecDB) funcTypeSpec(t types.Type) *FuncSpec {
 
 var clauseKw = map[string]bool{"requires": true, "ensures": true, "assigns": true, "invariant": true, "decreases": true,
 	"owns": true, "trusted": true, "inline": true, "pure": true, "holds": true, "props": true, "params": true}
-var declKw = map[string]bool{"func": true, "pred": true, "lemma": true, "global": true, "interface": true, "type": true, "expect-obligations": true, "table": true}
+var declKw = map[string]bool{"typeinv": true, "func": true, "pred": true, "lemma": true, "global": true, "interface": true, "type": true, "expect-obligations": true, "table": true}
 
 type rawClause struct {
 	kw   string
@@ -360,8 +366,22 @@ func (db *SpecDB) parseFile(file, src string) error {
 			parts := strings.Fields(r.text)
 			if len(parts) == 3 {
 				n, _ := strconv.Atoi(parts[2])
-				db.expect[pkg+":"+parts[0]] = n
+				db.expect["prop:"+parts[0]] += n
 			}
+			cur = nil
+		case "typeinv":
+			colon := strings.Index(r.text, ":")
+			if colon < 0 {
+				return fail(fmt.Errorf("typeinv Type: expr"))
+			}
+			ti := &TypeInv{Pkg: pkg, Type: strings.TrimSpace(r.text[:colon]), Text: strings.TrimSpace(r.text[colon+1:])}
+			e, err := parseExpr(ti.Text)
+			if err != nil {
+				return fail(err)
+			}
+			ti.Expr = e
+			db.typeinvs = append(db.typeinvs, ti)
+			cur = nil
 		default:
 			if cur == nil {
 				return fail(fmt.Errorf("clause outside func"))
@@ -904,4 +924,12 @@ func (p *parser) primary() (Expr, error) {
 		}
 	}
 	return nil, fmt.Errorf("unexpected token %q", t.text)
+}
+
+func (db *SpecDB) typeinvTexts() []string {
+	var out []string
+	for _, t := range db.typeinvs {
+		out = append(out, t.Pkg+"."+t.Type+": "+t.Text)
+	}
+	return out
 }
